@@ -81,22 +81,47 @@ struct Obs {
     pulled: Option<Vec<usize>>,
 }
 
-fn observe<T, C>(d: &T, mode: u32, o: Point, tk: u32, bb: Rectangle) -> Obs
+/// How the drawable is drawn: through `Image::new(d, o)` / `Image::with_center(d, o)`, or by calling the public
+/// trait method `ImageDrawable::draw_sub_image(target, area)` directly (no offset).
+enum How {
+    Img(u32, Point),
+    Direct(Rectangle),
+}
+
+fn run_draw<T, C, D>(d: &T, how: &How, t: &mut D) -> Rectangle
+where
+    T: ImageDrawable<Color = C>,
+    C: Tag,
+    D: DrawTarget<Color = C>,
+    D::Error: core::fmt::Debug,
+{
+    match how {
+        How::Img(mode, o) => {
+            let im = if *mode == 1 { Image::with_center(d, *o) } else { Image::new(d, *o) };
+            im.draw(t).unwrap();
+            im.bounding_box()
+        }
+        How::Direct(area) => {
+            d.draw_sub_image(t, area).unwrap();
+            Rectangle::zero()
+        }
+    }
+}
+
+fn observe<T, C>(d: &T, how: &How, tk: u32, bb: Rectangle) -> Obs
 where
     T: ImageDrawable<Color = C>,
     C: Tag,
 {
-    let im = if mode == 1 { Image::with_center(d, o) } else { Image::new(d, o) };
     let size = d.size();
-    let bbox = im.bounding_box();
     if tk == 0 {
         let mut t = IterTarget::<C>::new(bb);
-        im.draw(&mut t).unwrap();
+        let bbox = run_draw(d, how, &mut t);
         Obs { size, bbox, map: t.map, log: None, pulled: None }
     } else {
         let mut t = NativeTarget::<C>::new(bb);
         t.drain = tk == 2;
-        im.draw(&mut t).unwrap();
+        let bbox = run_draw(d, how, &mut t);
         let log = t
             .log
             .iter()
@@ -109,7 +134,8 @@ where
     }
 }
 
-/// args: bpp alt w h len seed mode ox oy tk tx ty tw th nsub [x y w h]*
+/// args: bpp alt w h len seed mode ox oy tk tx ty tw th nsub [x y w h]*        (mode 0 = Image::new, 1 = Image::with_center)
+///   or: bpp alt w h len seed 2    0  0  tk tx ty tw th nsub [x y w h]* ax ay aw ah   (mode 2 = draw_sub_image(area) directly)
 fn observe_case<C, O>(a: &[&str]) -> Result<Obs, usize>
 where
     C: Tag,
@@ -121,11 +147,12 @@ where
     let (mode, o, tk, bb) = (u(a[6]), pt(a[7], a[8]), u(a[9]), rc(a[10], a[11], a[12], a[13]));
     let nsub = us(a[14]);
     let r = |k: usize| rc(a[15 + 4 * k], a[16 + 4 * k], a[17 + 4 * k], a[18 + 4 * k]);
+    let how = if mode == 2 { How::Direct(r(nsub)) } else { How::Img(mode, o) };
     Ok(match nsub {
-        0 => observe(&img, mode, o, tk, bb),
-        1 => observe(&img.sub_image(&r(0)), mode, o, tk, bb),
-        2 => observe(&img.sub_image(&r(0)).sub_image(&r(1)), mode, o, tk, bb),
-        _ => observe(&img.sub_image(&r(0)).sub_image(&r(1)).sub_image(&r(2)), mode, o, tk, bb),
+        0 => observe(&img, &how, tk, bb),
+        1 => observe(&img.sub_image(&r(0)), &how, tk, bb),
+        2 => observe(&img.sub_image(&r(0)).sub_image(&r(1)), &how, tk, bb),
+        _ => observe(&img.sub_image(&r(0)).sub_image(&r(1)).sub_image(&r(2)), &how, tk, bb),
     })
 }
 
@@ -278,7 +305,7 @@ where
     let (bpp, alt, w, h) = (u(a[0]) as u64, a[1] == "1", u(a[2]) as u64, u(a[3]) as u64);
     let img = match ImageRaw::<C, O>::new(&bytes, Size::new(w as u32, h as u32)) {
         Ok(i) => i,
-        Err(_) => return "FAIL generator: wrong length".to_string(),
+        Err(_) => return "FAIL new rejected the documented length".to_string(),
     };
     let mut n = 0;
     for y in -3..(h as i64 + 3) {
@@ -302,6 +329,23 @@ where
     format!("OK {}", n)
 }
 
+fn nothing_drawn(ob: &Obs, why: &str) -> Option<String> {
+    if !ob.map.is_empty() {
+        return Some(format!("FAIL {} but {} pixels drawn", why, ob.map.len()));
+    }
+    if let Some(p) = &ob.pulled {
+        if p.iter().any(|n| *n != 0) {
+            return Some(format!("FAIL {} but colours pulled: {:?}", why, p));
+        }
+    }
+    if let Some(l) = &ob.log {
+        if l.iter().any(|(r, n)| *n != 0 || r.size.width as u64 * r.size.height as u64 != 0) {
+            return Some(format!("FAIL {} but call {:?}", why, l));
+        }
+    }
+    None
+}
+
 fn p_img_draw<C, O>(a: &[&str]) -> String
 where
     C: Tag,
@@ -312,9 +356,9 @@ where
     let (bpp, alt, w, h) = (u(a[0]) as u64, a[1] == "1", u(a[2]) as u64, u(a[3]) as u64);
     let ob = match observe_case::<C, O>(a) {
         Ok(o) => o,
-        Err(_) => return "FAIL generator: wrong length".to_string(),
+        Err(_) => return "FAIL new rejected the documented length".to_string(),
     };
-    let (mode, o, tk, bb) = (u(a[6]), pt(a[7], a[8]), u(a[9]), rc(a[10], a[11], a[12], a[13]));
+    let (mode, o, bb) = (u(a[6]), pt(a[7], a[8]), rc(a[10], a[11], a[12], a[13]));
     let nsub = us(a[14]);
     // the region of the raw image the final drawable shows, as a half-open box in raw image coordinates
     let (mut x0, mut y0, mut x1, mut y1) = (0i64, 0i64, w as i64, h as i64);
@@ -337,50 +381,63 @@ where
         if ob.size.width as u64 * ob.size.height as u64 != 0 {
             return format!("FAIL empty region but size {:?}", ob.size);
         }
-        if !ob.map.is_empty() {
-            return format!("FAIL empty region but {} pixels drawn", ob.map.len());
-        }
-        if let Some(p) = &ob.pulled {
-            if p.iter().any(|n| *n != 0) {
-                return format!("FAIL empty region but colours pulled: {:?}", p);
-            }
-        }
-        if let Some(l) = &ob.log {
-            if l.iter().any(|(r, n)| *n != 0 || r.size.width as u64 * r.size.height as u64 != 0) {
-                return format!("FAIL empty region but call {:?}", l);
-            }
-        }
-        return "OK 0".to_string();
-    }
-    if ob.size != Size::new(sw as u32, sh as u32) {
+    } else if ob.size != Size::new(sw as u32, sh as u32) {
         return format!("FAIL size {:?}, region is {}x{}", ob.size, sw, sh);
     }
-    // where the image is placed
-    let tl = if mode == 1 {
-        // with_center: the box must be centred on `o` (midpoint rounded towards the top left)
-        let br = ob.bbox.top_left + Point::new(sw as i32 - 1, sh as i32 - 1);
-        let dx = ob.bbox.top_left.x + br.x - 2 * o.x;
-        let dy = ob.bbox.top_left.y + br.y - 2 * o.y;
-        if !(0..=1).contains(&dx) || !(0..=1).contains(&dy) {
-            return format!("FAIL with_center({:?}) gives box {:?}", o, ob.bbox);
+    // (tl, dw, dh): where on the target and how large; (sx, sy): first source pixel in the raw image
+    let (tl, dw, dh, sx, sy);
+    if mode == 2 {
+        // draw_sub_image(area) called directly: draws the area (at the origin) iff it lies fully inside
+        let k = 15 + 4 * nsub;
+        let (ax, ay, aw, ah) = (i(a[k]) as i64, i(a[k + 1]) as i64, u(a[k + 2]) as i64, u(a[k + 3]) as i64);
+        let inside = !empty && aw > 0 && ah > 0 && ax >= 0 && ay >= 0 && ax + aw <= sw && ay + ah <= sh;
+        if !inside {
+            if nsub == 0 {
+                return nothing_drawn(&ob, "area not inside the image").unwrap_or("OK 0".to_string());
+            }
+            // an area outside a SubImage's own box is passed on to the parent: not specified, not judged
+            return "OK skip".to_string();
         }
-        ob.bbox.top_left
+        tl = Point::zero();
+        dw = aw;
+        dh = ah;
+        sx = x0 + ax;
+        sy = y0 + ay;
     } else {
-        o
-    };
-    if ob.bbox != Rectangle::new(tl, Size::new(sw as u32, sh as u32)) {
-        return format!("FAIL bounding box {:?}", ob.bbox);
+        if empty {
+            return nothing_drawn(&ob, "empty region").unwrap_or("OK 0".to_string());
+        }
+        // where the image is placed
+        tl = if mode == 1 {
+            // with_center: the box must be centred on `o` (midpoint rounded towards the top left)
+            let br = ob.bbox.top_left + Point::new(sw as i32 - 1, sh as i32 - 1);
+            let dx = ob.bbox.top_left.x + br.x - 2 * o.x;
+            let dy = ob.bbox.top_left.y + br.y - 2 * o.y;
+            if !(0..=1).contains(&dx) || !(0..=1).contains(&dy) {
+                return format!("FAIL with_center({:?}) gives box {:?}", o, ob.bbox);
+            }
+            ob.bbox.top_left
+        } else {
+            o
+        };
+        if ob.bbox != Rectangle::new(tl, Size::new(sw as u32, sh as u32)) {
+            return format!("FAIL bounding box {:?}", ob.bbox);
+        }
+        dw = sw;
+        dh = sh;
+        sx = x0;
+        sy = y0;
     }
     let mut want: BTreeMap<(i32, i32), u32> = BTreeMap::new();
-    for py in 0..sh {
-        for px in 0..sw {
+    for py in 0..dh {
+        for px in 0..dw {
             let (qx, qy) = (tl.x as i64 + px, tl.y as i64 + py);
             let inside = qx >= bb.top_left.x as i64
                 && qx < bb.top_left.x as i64 + bb.size.width as i64
                 && qy >= bb.top_left.y as i64
                 && qy < bb.top_left.y as i64 + bb.size.height as i64;
             if inside {
-                want.insert((qy as i32, qx as i32), ref_pixel(bpp, alt, &bytes, w, h, x0 + px, y0 + py).unwrap());
+                want.insert((qy as i32, qx as i32), ref_pixel(bpp, alt, &bytes, w, h, sx + px, sy + py).unwrap());
             }
         }
     }
@@ -393,9 +450,9 @@ where
             .unwrap_or_default();
         return format!("FAIL drawn pixels differ: {}", diff);
     }
-    let n = (sw * sh) as usize;
+    let n = (dw * dh) as usize;
     if let Some(l) = &ob.log {
-        if l.len() != 1 || l[0] != (Rectangle::new(tl, Size::new(sw as u32, sh as u32)), n) {
+        if l.len() != 1 || l[0] != (Rectangle::new(tl, Size::new(dw as u32, dh as u32)), n) {
             return format!("FAIL fill_contiguous calls {:?}, expected one for the box with {} colours", l, n);
         }
     }
@@ -404,7 +461,6 @@ where
             return format!("FAIL colour stream has {:?} items, area has {}", p, n);
         }
     }
-    let _ = tk;
     format!("OK {}", want.len())
 }
 
